@@ -24,7 +24,7 @@ def random_cases(rnd, n):
                 alpha = [c for c in alpha if c not in (32, 59)]          # half of the strings avoid blanks and ';'
             chars = [rnd.choice(alpha) for _ in range(ln)]
             s = fcc(chars, dname)
-            out.append(framed(s, "fcc-random", comment=rnd.choice([None, None, "text", "a ; b"])))
+            out.append(framed(s, "fcc-random", comment=rnd.choice([None, None, "text", "a ; b", 'say "hi" /now/', "it's |ok|"])))
         elif r < 0.9:
             wide = rnd.random() < 0.5
             ln = rnd.choice([1, 1, 2, 3, 4, 8, 64, rnd.randint(1, 64)])
@@ -53,6 +53,8 @@ def run(ctx):
     ctx.cov["suites"]["export"] = {"tlc_exported_statements": len(recs), "wall_s": round(r.wall, 2)}
     asmcheck.run_suite(ctx, "directive-table", [framed(s, "table") for s in recs])
     asmcheck.run_suite(ctx, "directive-table-with-comment", [framed(s, "table-comment", comment="note") for s in recs if s["mn"] in ("FCC", "FCB", "RMB")])
+    # a comment that itself contains every delimiter character must not leak into the string
+    asmcheck.run_suite(ctx, "fcc-with-delimiters-in-comment", [framed(s, "table-comment-delims", comment='the "greeting" of a/b, it\'s |x|') for s in recs if s["mn"] == "FCC"])
     asmcheck.run_suite(ctx, "directive-random", random_cases(rnd, 200000 if thorough else 8000))
     ctx.cov["rule"] = ("TLC-enumerated FCB/FDB lists (length 1,2,3,64 x literal spellings, negatives, boundary and out-of-range values), FCC strings from the string "
                        "class lattice (empty, blanks, blank runs, leading/trailing blank, ';', characters outside the operand alphabet, the other quotes, length 255) x "
